@@ -17,6 +17,7 @@ EXPLANATION = (
     "NameError before the handler is appended; (4) a dead weak argument returns False before the callback is called, and liveness is tested by identity with None, not by truthiness; "
     "(5) emit visits every handler: the dispatch is a plain loop with no early exit or short-circuit, the result is accumulated and returned; (7) disconnect() identifies the handler by every field connect() stores except the key; (6) ALIAS: the handler list registered for (sender, signal) is only edited in place and never replaced - connect() holds an alias to it across the creation of the weak references, whose callbacks may disconnect at that very moment."
     ' Added after seed round 3: (8) _prepare_user_args returns tuples it built itself (a snapshot of the connect-time arguments).'
+    " Round 4: (9) callbacks are compared by equality, never identity; (10) MetaSignals.__init__ extends only the class's own signal list (from the class dict) or a fresh one."
 )
 NOT_DECIDED = "Call order and argument order for all histories (list semantics), garbage-collection timing, behaviour for handlers connected/disconnected mid-emit beyond 'handlers that stay connected are called once'."
 ASSUMPTIONS = []
